@@ -529,13 +529,15 @@ pub struct Params {
     pub wo: bool,
     /// fault / failure ops allowed
     pub faults: bool,
+    /// boundary-valued fields (deadlines decades away, extreme ids)
+    pub extreme: bool,
 }
 
 impl Params {
     pub fn header(&self) -> String {
         format!(
-            "max={} buf={} cap={} coupled={} wo={} faults={}",
-            self.max, self.buf, self.cap, self.coupled as u8, self.wo as u8, self.faults as u8
+            "max={} buf={} cap={} coupled={} wo={} faults={} extreme={}",
+            self.max, self.buf, self.cap, self.coupled as u8, self.wo as u8, self.faults as u8, self.extreme as u8
         )
     }
     pub fn from_header(h: &str) -> Params {
@@ -547,6 +549,7 @@ impl Params {
             coupled: g("coupled", 1) == 1,
             wo: g("wo", 0) == 1,
             faults: g("faults", 0) == 1,
+            extreme: g("extreme", 0) == 1,
         }
     }
 }
@@ -646,7 +649,13 @@ fn gen_op(rng: &mut Rng, cl: &Client, g: &mut Gen, p: &Params) -> Op {
             // far deadlines land on distinct milliseconds: (multiple of 16 ms) + (call number mod 16)
             let far = ((g.now + rel) / 32_000_000 + 1) * 32_000_000 + (g.ncalls % 16) * 2_000_000 + sub;
             let d = if rel == 0 && rng.chance(1, 2) { g.now / 2 } else if rel < 2_000_000 { g.now + rel } else { far };
-            g.deadlines.push(d);
+            g.deadlines.push(d); // (clock steps aim at ordinary deadlines only: virtual time stays below a year)
+            // decades away: beyond the timer wheel's range (2^36 ms) unless the armed timeout is clamped
+            let d = if p.extreme && rng.chance(1, 3) {
+                g.now + *rng.pick(&[70_000_000_000_000_000u64, 315_360_000_000_000_000, 3_153_600_000_000_000_000]) + g.ncalls * 2_000_000
+            } else {
+                d
+            };
             Op::Call {
                 h: *rng.pick(&handles),
                 d,
@@ -770,7 +779,7 @@ pub fn run_script(out: &mut Out, idx: u64, p: &Params, rng: &mut Rng, script: Op
     simt::take_log();
 }
 
-pub fn generate(out: &mut Out, seed: u64, scripts: u64, len: usize, wo: bool, faults: bool) {
+pub fn generate(out: &mut Out, seed: u64, scripts: u64, len: usize, wo: bool, faults: bool, extreme: bool) {
     for idx in 0..scripts {
         let mut rng = Rng::new(seed.wrapping_mul(1_000_003).wrapping_add(idx));
         let p = Params {
@@ -780,6 +789,7 @@ pub fn generate(out: &mut Out, seed: u64, scripts: u64, len: usize, wo: bool, fa
             coupled: rng.chance(2, 3),
             wo,
             faults,
+            extreme,
         };
         run_script(out, idx, &p, &mut rng, None, len);
     }
